@@ -197,11 +197,13 @@ def _op(k, names=(), names2=(), ids2=(), **kw):
     return dict({'k': k, 'names': list(names), 'names2': list(names2), 'ids2': list(ids2)}, **kw)
 
 
+# (the ElementGlobal variants *G are left out: ElementQuad2G spans global Q2, whose trace on an edge of a
+# non-rectangular cell is not determined by the three numbers on that edge)
 # families for which the law TraceSupport is asserted (DESIGN section 5, C07 Soundness): functions attached to an entity
 # outside the closure of a facet vanish on that facet in the stated component
 _VALUE = {'ElementTriP1', 'ElementTriP2', 'ElementTriP3', 'ElementTriP4', 'ElementTriMini', 'ElementTriCCR',
-          'ElementTriP1B', 'ElementTriP2B', 'ElementTriP1G', 'ElementTriP2G', 'ElementQuad1', 'ElementQuad2',
-          'ElementQuadS2', 'ElementQuad2G', 'ElementQuadP', 'ElementTetP1', 'ElementTetP2', 'ElementTetMini',
+          'ElementTriP1B', 'ElementTriP2B', 'ElementQuad1', 'ElementQuad2',
+          'ElementQuadS2', 'ElementQuadP', 'ElementTetP1', 'ElementTetP2', 'ElementTetMini',
           'ElementTetCCR', 'ElementHex1', 'ElementHex2', 'ElementHexS2'}
 _NORMAL = {'ElementTriRT0', 'ElementTriRT1', 'ElementTriRT2', 'ElementTriBDM1', 'ElementTetRT0', 'ElementTetRT1',
            'ElementQuadRT0', 'ElementQuadRT1', 'ElementHexRT1'}
